@@ -101,10 +101,10 @@ loop_entry("shell::do_command_substitution_for_dot",
            "_token = _tail, a strict suffix: the regex consumes two backquotes; a cycle without any capture is "
            "infeasible because re.is_match(&_token) held on the same text", check="stutter-unless-no-capture")
 loop_entry("shell::expand_brace_range",
-           "($1 >= str::parse(std::string::String::deref(T::to_string(regex::Captu=False | discr(i32::checked_sub($1, $2))=None",
+           "($1 < str::parse(std::string::String::deref(T::to_string(regex::Captur=True | discr(i32::checked_sub($1, $2))=None",
            "n moves by incr >= 1 toward end (incr clamped before the loop)")
 loop_entry("shell::expand_brace_range",
-           "($1 <= str::parse(std::string::String::deref(T::to_string(regex::Captu=False | discr(i32::checked_add($1, $2))=None",
+           "($1 > str::parse(std::string::String::deref(T::to_string(regex::Captur=True | discr(i32::checked_add($1, $2))=None",
            "n moves by incr >= 1 toward end (incr clamped before the loop)")
 loop_entry("types::Command::from_tokens", "$1=False",
            "each cycle removes at least one token matching the predicate that has_redirect_from re-evaluates; the "
@@ -114,7 +114,7 @@ loop_entry("shell::do_command_substitution_for_dollar",
            'discr(libs::re::find_first_group("\\$\\((.+)\\)", std::string::String::de=None | discr(regex::Regex::new("(?P<head>[^\\$]*)\\$\\(.+\\)(?P<tail>.*)"))=Err | shell::should_do_dollar_command_extension(std::string::String::deref($=False',
            "each cycle replaces the first $(...) of `line` by command output (rescan of that output: C11 R11-2)")
 loop_entry("shell::expand_env",
-           "shell::env_in_token(std::string::String::deref($1))=False | std::string::String::eq(shell::expand_one_env($1, std::string::String:=True",
+           "eq(shell::expand_one_env($1, std::string::String::deref($2)), $2)=True | shell::env_in_token(std::string::String::deref($1))=False",
            "each cycle rewrites a reference in _token via expand_one_env and leaves when the rewrite changed nothing "
            "(the gate accepts `${NAME` without the closing brace, the rewriter does not: the explicit test is what "
            "ends the loop; rescan of the value: C10 R10-1)", check="fixpoint-guard")
